@@ -1221,13 +1221,7 @@ def env_at(root, node, env=None):
                     return rec(a['body'])
             return False
         if k == 'Closure':
-            d = env.get('__cdepth__', 0)
-            env['__cdepth__'] = d + 1
-            i = 0
-            for p in e.get('params', []):
-                for b in _pat_binds(p):
-                    env[b['local']] = '%s%d' % ('abcdefgh'[min(d, 7)], i)
-                    i += 1
+            _bind_params(e.get('params', []), env)
             return rec(e['ch'][0])
         if k == 'For':
             if _contains(e['ch'][0], node):
@@ -1340,13 +1334,7 @@ def guards_at(root, node, env=None):
             return None
         if k == 'Closure':
             en = dict(en)
-            d = en.get('__cdepth__', 0)
-            en['__cdepth__'] = d + 1
-            i = 0
-            for p in e.get('params', []):
-                for b in _pat_binds(p):
-                    en[b['local']] = '%s%d' % ('abcdefgh'[min(d, 7)], i)
-                    i += 1
+            _bind_params(e.get('params', []), en)
             return rec(e['ch'][0], en)
         if k == 'For':
             if _contains(e['ch'][0], node):
